@@ -1,8 +1,10 @@
 /-
 Driver/C18.lean — line-protocol driver for C18 histories.
-in : {"case": n, "events": [Ev], "chain": [TCte] (optional)}
+in : {"case": n, "events": [CEv], "heap": [[identifier]] (the Column objects the user holds), "chain": [TCte] (optional)}
 out: {"case": n, "full": [obs], "own": [obs], "scope": [violated hypothesis names],
-      "sessions": [registry snapshot after every step event of the full run], "rehash": [[name, reads]] }
+      "sessions": [registry snapshot after every step event of the full run],
+      "heaps": [the heap after every apply / edit event of the full run], "heapOwn": the heap after P alone,
+      "rehash": [[name, reads]] }
 `full` = what P observes along the interleaving, `own` = what it observes alone (the definitions the C18
 theorems are about).  Pure function of its input lines.
 -/
@@ -11,7 +13,8 @@ open Lean Sqlframe Sqlframe.Sess
 
 structure Case where
   case : Nat
-  events : List Ev
+  events : List CEv
+  heap : Heap := []
   chain : List TCte := []
   deriving FromJson
 
@@ -19,15 +22,17 @@ def obsJson : Obs → Json
   | .ident n => Json.mkObj [("ident", toJson n)]
   | .raised => Json.mkObj [("raised", toJson true)]
   | .viewCols cs => Json.mkObj [("cols", match cs with | some l => toJson l | none => Json.null)]
+  | .resolved ts => Json.mkObj [("resolved", Json.arr (ts.map (fun t => match t with | some n => toJson n | none => Json.null)).toArray)]
+  | .state ts => Json.mkObj [("state", toJson ts)]
 
 def snap (σ : Session) : Json :=
   Json.mkObj [("known", toJson σ.knownIds), ("branch", toJson σ.branchIds), ("seq", toJson σ.seqIds),
     ("alias", toJson σ.aliasMap), ("counter", toJson σ.counter), ("catalog", toJson σ.catalogObjects),
     ("engineTemp", toJson σ.engineTemp), ("cols", toJson σ.catalogCols)]
 
-def sessions (σ : Session) : List Ev → List Json
+def sessions (σ : Session) : List CEv → List Json
   | [] => []
-  | .step _ st :: r => let σ' := applyStep σ st; snap σ' :: sessions σ' r
+  | .base (.step _ st) :: r => let σ' := applyStep σ st; snap σ' :: sessions σ' r
   | _ :: r => sessions σ r
 
 def drvHash (s : String) : String := "t" ++ toString (s.foldl (fun h c => (h * 131 + c.toNat) % 100000007) 7)
@@ -38,12 +43,14 @@ def handle (line : String) : String :=
   match Json.parse line >>= fromJson? (α := Case) with
   | .error e => Json.compress (Json.mkObj [("err", toJson s!"bad-input: {e}")])
   | .ok c =>
-    let full := outs Session.fresh c.events
-    let own := outs Session.fresh (onlyOwn c.events)
+    let full := outsC Copying.real Session.fresh c.heap c.events
+    let own := outsC Copying.real Session.fresh c.heap (onlyOwnC c.events)
+    let low := lower c.heap c.events
     let scope : List String :=
-      (if idsFresh c.events (foreignIds c.events) then [] else ["H_idsFresh"])
-      ++ (if ctesHaveIds c.events then [] else ["H_ctesHaveIds"])
+      (if idsFresh low (foreignIds low) then [] else ["H_idsFresh"])
+      ++ (if ctesHaveIds low then [] else ["H_ctesHaveIds"])
       ++ (if viewObs full = viewObs own then [] else ["H_viewColumnsStable"])
+      ++ (if viewsOwn low (foreignLookups low) then [] else ["H_tableLookupsOwn"])
     let rh := rehash drvHash Gen.sessHashParts c.chain
     let rhErased := rehash drvHash Gen.sessHashParts (c.chain.map TCte.eraseIds)
     Json.compress (Json.mkObj [
@@ -52,6 +59,8 @@ def handle (line : String) : String :=
       ("own", Json.arr (own.map obsJson).toArray),
       ("scope", toJson scope),
       ("sessions", Json.arr (sessions Session.fresh c.events).toArray),
+      ("heaps", toJson (heapsC Copying.real Session.fresh c.heap c.events)),
+      ("heapOwn", toJson (heapAfter Copying.real Session.fresh c.heap (onlyOwnC c.events))),
       ("rehash", toJson (rh.map (fun x => (x.1, x.2.2.1)))),
       ("rehashIgnoresIds", toJson (decide (rh = rhErased)))])
 
